@@ -59,6 +59,10 @@ def obligations_for(prop, tier, jobs=1):
         from . import stack_scan
 
         out.update(stack_scan.run())
+    if prop in ("C03", "C17"):
+        from . import chains_scan
+
+        out.update(chains_scan.run())
     if prop == "C07":
         from . import tables_scan
 
